@@ -22,7 +22,8 @@ RULE = (
     "equals the model covariance iff k follows the spectral density. The check is layered so that most Monte-Carlo noise disappears: amp_law (iid N(0,1) "
     "amplitudes over Hypothesis-drawn seeds), wave_law (pooled wave vectors: uniform directions, radial law vs an independently integrated cdf, and the "
     "characteristic-function identity mean cos(k.h) = rho(|h|) at generated lags; inversion sampling at |z| <= 7, MCMC with effective sample size N/10 and "
-    "a documented bias allowance 0.25 sqrt(100/N)), mode_scaling (pooled error must not grow from N to 4N to 16N), srf_ensemble (black box: sample mean "
+    "a documented bias allowance 0.25 sqrt(100/N)), ppf_law (deterministic: the inversion sampler's quantile function at generated probabilities k 2^-53 "
+    "incl. both extreme tails must be a finite wave number and satisfy F(ppf(u)) = u or 1-u against closed-form cdfs to 1e-12), mode_scaling (pooled error must not grow from N to 4N to 16N), srf_ensemble (black box: sample mean "
     "and covariance of SRF over 300-3000 seeds at <= 6 points vs cov_spatial + nugget for anisotropic rotated models), fourier_cov (randomness removed: "
     "sum sf_j^2 cos(k_j.D) recomputed from the documented grid must equal the generator's own table and converge to the covariance under refinement), "
     "incompr_cov (component covariances of vector fields vs the projected spectrum). Every statistical failure is re-run once on fresh seeds with a 4x "
@@ -289,6 +290,80 @@ def check_wave(case, rec):
 
     _confirm(run, case, rec, tags, "wave_law")
     rec.nontrivial(not gens.spec_is_default(spec) or path == "mcmc")
+
+
+# ---------------------------------------------------------------------------
+# 2b. inversion sampling: the quantile function at every probability the uniform generator can produce
+
+
+def _u_values():
+    """Probabilities in (0, 1) as rng.random() can return them: k 2^-53, incl. both extreme tails."""
+    tail = st.builds(lambda e, m: m * 2.0**-e, st.integers(1, 52), st.floats(1.0, 1.999))
+    return st.one_of(
+        st.floats(2.0**-53, 1.0 - 2.0**-53),
+        tail,
+        tail.map(lambda t: 1.0 - t),
+        st.integers(1, 64).map(lambda k: k * 2.0**-53),
+        st.integers(1, 64).map(lambda k: 1.0 - k * 2.0**-53),
+    ).filter(lambda u: 0.0 < u < 1.0)
+
+
+@st.composite
+def gen_ppf(draw, tier="quick"):
+    cls, dim = draw(st.sampled_from(sorted(PPF)))
+    spec = {
+        "cls": cls, "dim": dim, "var": draw(logfloat(0.1, 10.0)), "len_scale": draw(st.one_of(st.just(1.0), logfloat(1e-3, 1e3))), "nugget": 0.0,
+        "rescale": draw(st.one_of(st.none(), logfloat(0.1, 10.0))), "anis": [draw(logfloat(0.1, 10.0)) for _ in range(dim - 1)],
+        "angles": [draw(st.floats(-3.0, 3.0)) for _ in range(dim * (dim - 1) // 2)], "opt": {},
+    }
+    return {"spec": spec, "u": sorted(set(draw(st.lists(_u_values(), min_size=4, max_size=40))))}
+
+
+def _ref_radial_cdf(cls, dim, x):
+    """Closed-form cdf of |k| len_rescaled in terms of x = k * len_rescaled, and its complement (both cancellation free)."""
+    import mpmath as mp
+
+    x = mp.mpf(x)
+    if cls == "Gaussian":
+        if dim == 1:
+            return mp.erf(x / 2), mp.erfc(x / 2)
+        return -mp.expm1(-((x / 2) ** 2)), mp.exp(-((x / 2) ** 2))
+    if dim == 1:
+        return 2 / mp.pi * mp.atan(x), 2 / mp.pi * mp.atan(1 / x) if x > 0 else mp.mpf(1)
+    q = 1 / mp.sqrt(1 + x * x)
+    return 1 - q, q
+
+
+def check_ppf(case, rec):
+    spec = case["spec"]
+    cls, dim = spec["cls"], spec["dim"]
+    tags = dict(gens.spec_tags(spec), sampling="inversion", kind="ppf_law")
+    rec.label(cls, f"dim{dim}", "ppf_law")
+    model = lib(build_model, spec, _tags=tags)
+    u = np.array(case["u"], dtype=float)
+    with quiet():
+        k = np.asarray(lib(model.spectral_rad_ppf, u, _what="spectral_rad_ppf", _tags=tags), dtype=float)
+        k1 = np.array([float(model.spectral_rad_ppf(float(v))) for v in u])
+    require(k.shape == u.shape, f"spectral_rad_ppf returns shape {k.shape} for {u.shape}", tags)
+    bad = ~np.isfinite(k) | (k < 0)
+    if bad.any():
+        raise Violation(f"spectral_rad_ppf({u[bad][0]!r}) = {k[bad][0]!r}: not a finite non-negative wave number "
+                        f"({cls}, dim {dim}; rng.random() can return this probability)", dict(tags, kind="ppf_nonfinite"))
+    require(bool(np.all(k == k1)), "spectral_rad_ppf differs between scalar and array calls", tags)
+    # law of ppf(U): F(ppf(u)) must be u (increasing inverse) or 1 - u (decreasing inverse; equally valid for U uniform) throughout
+    ls = float(model.len_rescaled)
+    inc = dec = 0.0
+    for ui, ki in zip(u, k):
+        F, Fc = _ref_radial_cdf(cls, dim, ki * ls)
+        inc = max(inc, float(min(abs(F - ui), abs(Fc - (1 - ui)))))
+        dec = max(dec, float(min(abs(Fc - ui), abs(F - (1 - ui)))))
+    err = min(inc, dec)
+    rec.discrepancy("ppf_law", err, 1e-12)
+    if err > 1e-12:
+        raise Violation(f"law of spectral_rad_ppf(U): |F(ppf(u)) - u| up to {inc:.3g} (and {dec:.3g} for the reflected law) > 1e-12", tags)
+    mono = np.diff(k)
+    require(bool(np.all(mono >= 0) or np.all(mono <= 0)), "spectral_rad_ppf is not monotone", tags)
+    rec.nontrivial(bool(u.min() < 1e-8 or u.max() > 1 - 1e-8))
 
 
 # ---------------------------------------------------------------------------
@@ -670,6 +745,7 @@ def check_k1(case, rec):
 SUBS = [
     Sub("amp_law", gen_amp, check_amp, quick=16, thorough=120, shards_quick=2, shards_thorough=4, shrink_quick=False),
     Sub("wave_law", gen_wave, check_wave, quick=60, thorough=1200, shards_quick=5, shards_thorough=8, shrink_quick=False, budget_quick=150),
+    Sub("ppf_law", gen_ppf, check_ppf, quick=1600, thorough=40000, shards_quick=2, shards_thorough=4),
     Sub("mode_scaling", gen_scaling, check_scaling, quick=16, thorough=300, shards_quick=2, shards_thorough=4, shrink_quick=False, budget_quick=150),
     Sub("srf_ensemble", gen_ensemble, check_ensemble, quick=60, thorough=1200, shards_quick=4, shards_thorough=8, shrink_quick=False, budget_quick=150),
     Sub("fourier_cov", gen_fourier, check_fourier, quick=40, thorough=600, shards_quick=2, shards_thorough=4, shrink_quick=False),
